@@ -7,7 +7,7 @@
 (*       or one attribute value.                                                           *)
 EXTENDS Integers, Sequences, FiniteSets, TLC
 
-CONSTANTS Which, MaxLen, SmallLen, AsBuilt
+CONSTANTS Which, MaxLen, SmallLen, TinyLen, AsBuilt
 Has(f) == f \in AsBuilt
 Failed(gs) == {g[1] : g \in {x \in gs : ~x[2]}}
 SeqToSet(s) == {s[i] : i \in DOMAIN s}
@@ -31,8 +31,10 @@ Prefixes == {<<"slash", "backslash">>, <<"slash", "tab", "slash">>, <<"slash", "
              <<"slash", "ctl", "slash">>, <<"slash", "space", "slash">>, <<"host", "colon", "slash", "slash">>,
              <<"slash", "dot", "slash">>, <<"backslash", "backslash">>, <<"slash", "host", "at">>}
 \* ... and, up to SmallLen, over the alphabet that path normalisation reacts to
-Small == {"slash", "backslash", "dot", "host", "qmark"}
-SmallSeqs == UNION {[1..k -> Small] : k \in 1..SmallLen}
+Small == {"slash", "backslash", "dot", "host", "qmark", "hash"}
+\* ... and longer still over the four classes that interact in dot-segment removal ("/#/../\\" needs seven)
+Tiny == {"slash", "backslash", "dot", "hash"}
+SmallSeqs == UNION {[1..k -> Small] : k \in 1..SmallLen} \cup UNION {[1..k -> Tiny] : k \in 1..TinyLen}
 InC17(r) == \/ \E s \in SeqsUpTo(MaxLen) \cup SmallSeqs : r = [handler |-> "login", dest |-> s]
             \/ \E h \in RedirectingHandlers, s \in SeqsUpTo(2) : r = [handler |-> h, dest |-> s]
             \/ \E h \in RedirectingHandlers, p \in Prefixes, t \in SeqsUpTo(1) \cup {<<>>} :
@@ -43,8 +45,11 @@ InC17(r) == \/ \E s \in SeqsUpTo(MaxLen) \cup SmallSeqs : r = [handler |-> "logi
 \* slash survives.  A destination is a sequence of character classes; a path segment is what lies between slashes.
 FirstIdx(s, set) == IF \E i \in 1..Len(s) : s[i] \in set THEN CHOOSE i \in 1..Len(s) : s[i] \in set /\ \A j \in 1..(i-1) : s[j] \notin set
                     ELSE Len(s) + 1
-PathPart(s) == SubSeq(s, 1, FirstIdx(s, {"qmark", "hash"}) - 1)
-RestPart(s) == SubSeq(s, FirstIdx(s, {"qmark", "hash"}), Len(s))
+\* net/http Redirect cuts the destination at the first "?" only: a "#" does not end what it normalises
+PathPart(s) == SubSeq(s, 1, FirstIdx(s, {"qmark"}) - 1)
+RestPart(s) == SubSeq(s, FirstIdx(s, {"qmark"}), Len(s))
+\* what the first repair of the filter took for the path: cut at "?" or "#"
+PathPartHash(s) == SubSeq(s, 1, FirstIdx(s, {"qmark", "hash"}) - 1)
 RECURSIVE CleanFrom(_, _, _, _)
 \* i: position, cur: segment being read, stack: cleaned segments so far
 Push(stack, seg) == IF seg = <<>> \/ seg = <<"dot">> THEN stack
@@ -65,6 +70,7 @@ Normalised(s) == IF Len(s) >= 1 /\ s[1] = "slash" /\ ~(Len(s) >= 2 /\ s[2] = "sl
 \* browser RECEIVES, so the filter must be closed under the normalisation
 HasIn(s, c) == \E i \in 1..Len(s) : s[i] = c
 Keeps(s) == IF Has("FilterChecksPrefixOnly") THEN SafeDest(s)                                  \* as built before the second repair
+            ELSE IF Has("FilterCutsAtHash") THEN SafeDest(s) /\ ~HasIn(PathPartHash(s), "backslash")   \* ... before the third
             ELSE SafeDest(s) /\ ~HasIn(PathPart(s), "backslash")
 
 \* ------------------------------------------------------------------ C13
